@@ -87,4 +87,11 @@ def taperPts (x : List K) (first last : K) (f : K → K) : Option (List K × Lis
       some (xb, yb)
   | _ => none
 
+/-- `taper()` (no wavelengths) of a spectrum whose model is this table at z = 0: the tapered table, or
+`none` when the spectrum itself is returned; the table's `keep_neg` flag is propagated (9c64e64) -/
+def Table.taper (t : Table K) : Option (Table K) :=
+  match taperPts t.pts (t.vals.headD 0) (t.vals.getLastD 0) t.eval with
+  | none => none
+  | some (px, py) => some (mkTable px py t.keepNeg).1
+
 end Synphot
